@@ -444,6 +444,15 @@ def handleOps (op : String) (args : List String) (impl : Impl) : Option Ans :=
       | _ => "FAIL:decode"
     pure { model := "-", spec := sp, branch := "leap_table:" ++ which }
   -- ---------------------------------------------------------------- C12
+  | "precise0", [e, _ref, ts, _fwd] => do
+    -- `precise_timescale_conversion` with the zero polynomial IS the plain conversion (C05 / C06 / C07, spec only):
+    -- identical to what to_time_scale answers for the same epoch, whatever the reference epoch
+    let e ← parseEp? e
+    let sp := if e.ts.name == ts then noPanic impl else match impl with
+      | .ok [x, y] => verdict [("equals_to_time_scale", x == y)]
+      | .other w => "FAIL:" ++ w
+      | _ => "FAIL:decode"
+    pure { model := "-", spec := sp, branch := "precise0:" ++ e.ts.name ++ ">" ++ ts }
   | "ecmp_via", [how, _, _, _, _] => do
     -- C12 on the RESULT of a stepping entry point, in whatever form it was left (raw parts as printed), against the freshly
     -- constructed epoch of the same parts (moved by a few ns) and its re-expression in another scale: chronological
@@ -792,6 +801,17 @@ def handleMore (op : String) (args : List String) (impl : Impl) : Option Ans :=
       | _ => "FAIL:decode"
     pure { model := (match m with | some r => showResInt r | none => "unmodelled"), spec := sp,
            branch := "ns_rt:" ++ g ++ ":" ++ (if v < NPCs then "fits" else "beyond") }
+  | "fmt_octal", [e] => do
+    -- `{:o}` prints the GPST nanosecond counter: the number when the GPST count of the instant is in [0, 1 century), and
+    -- never a number otherwise (C20: "an error, never a wrong number"; the unchanged code panics there — accepted, the
+    -- formatting trait is not among the observables the property names)
+    let e ← parseEp? e
+    let fits := convFits e TS.GPST
+    let sp := if !fits then "na" else match valueIn e TS.GPST, impl with
+      | some v, .ok [hex] => verdict [("prints_the_counter", decide (0 ≤ v ∧ v < NPCs) && hex == String.ofList ((toString v).toList.flatMap (fun c => [Char.ofNat (48 + c.toNat / 16), (let d := c.toNat % 16; if d < 10 then Char.ofNat (48 + d) else Char.ofNat (87 + d))])))]
+      | some v, .other _ => verdict [("fails_only_if_negative_or_beyond", decide (v < 0 ∨ v ≥ NPCs))]
+      | _, _ => "FAIL:decode"
+    pure { model := "-", spec := sp, branch := "fmt_octal:" ++ e.ts.name }
   | "to_ns", [g, e] => do
     let e ← parseEp? e
     let ts ← (match g with | "gpst" => some TS.GPST | "qzsst" => some TS.QZSST | "gst" => some TS.GST | "bdt" => some TS.BDT | _ => none)
